@@ -5,7 +5,11 @@
 // Database's reference counts and flush-list.  No behaviour.
 package trie
 
-import "github.com/youchainhq/go-youchain/common"
+import (
+	"reflect"
+
+	"github.com/youchainhq/go-youchain/common"
+)
 
 // VerifNode is one entry of the in-memory node cache.
 type VerifNode struct {
@@ -42,4 +46,11 @@ func (db *Database) VerifMetaChildren() map[common.Hash]uint64 {
 		out[k] = uint64(v)
 	}
 	return out
+}
+
+// VerifCounterBits returns the declared widths (in bits) of cachedNode.parents
+// and of the values of cachedNode.children.
+func VerifCounterBits() (parents, children int) {
+	var c cachedNode
+	return reflect.TypeOf(c.parents).Bits(), reflect.TypeOf(c.children).Elem().Bits()
 }
